@@ -25,7 +25,10 @@ func init() {
 
 func c11(env *core.Env) {
 	c := env.C
-	modes := []string{"bearer", "bearer", "basic", "both", "unknown-scheme", "malformed", "bearer-no-realm", "none"}
+	// ("bearer-or-basic": a registry that answers some requests with a Bearer challenge and
+	// others with a Basic challenge whose realm happens to look like a URL; a Basic realm
+	// is a label, never somewhere to send anything)
+	modes := []string{"bearer", "bearer", "basic", "both", "unknown-scheme", "malformed", "bearer-no-realm", "none", "bearer-or-basic"}
 	// the two registries differ by name, or only by port
 	samePort := c.Bool("hosts-differ-only-by-port", 1, 3)
 	mk := func(i int) *regHost {
@@ -79,6 +82,22 @@ func c11(env *core.Env) {
 		}
 	}
 	w := newAuthWorld(env, hosts)
+	if c.Bool("host-field-differs", 1, 4) {
+		w.hostHeader = func(urlHost string) string {
+			switch c.Weighted("host-field", []int{3, 1, 2}) {
+			case 1:
+				return ""
+			case 2:
+				for _, h := range hosts {
+					if h.name != urlHost {
+						env.Probe("c11:host-field-names-the-other-registry")
+						return h.name
+					}
+				}
+			}
+			return urlHost
+		}
+	}
 	failFor := map[string]bool{}
 	if c.Bool("configfail", 1, 8) {
 		failFor[hosts[c.Int("configfail.host", 2)].name] = true
